@@ -78,6 +78,12 @@ def r19_config_invariance(facts_by_cfg, run_rules):
             "the builds differ in items: %s" % sorted(id_ ^ i3)[:6])
     # (b) width-erased MIR identical
     n_cmp = 0
+    bits_roots = set()
+    for bb in fd.bodies:
+        sig = body_signature(bb)
+        if sig and any("_bits" in x for x in sig):
+            bits_roots.add(bb.get("root") or bb["def"])
+            bits_roots.add(bb["def"])
     for d in sorted(set(dd) & set(d3)):
         a, b = body_signature(dd[d]), body_signature(d3[d])
         if a is None and b is None:
@@ -86,6 +92,10 @@ def r19_config_invariance(facts_by_cfg, run_rules):
         where = "%s:%d" % (F.rel(dd[d]["file"]), dd[d]["sp"][0])
         if a == b:
             c.ok("mir:%s" % d, where, "MIR identical after erasing the float width (%d blocks)" % (len(a) - 1), nontrivial=False)
+        elif a is not None and b is not None and ((dd[d].get("root") or dd[d]["def"]) in bits_roots or dd[d]["def"] in bits_roots) and \
+                [re.sub(r"\b[ui]64\b", "FloatBits", x) for x in a] == [re.sub(r"\b[ui]32\b", "FloatBits", x) for x in b]:
+            # the integer holding a float's bit pattern (to_bits / from_bits) has the float's width: still only the width differs
+            c.ok("mir:%s" % d, where, "MIR identical after erasing the float width and the width of its bit-pattern integer (%d blocks)" % (len(a) - 1), nontrivial=False)
         else:
             diff = ""
             if a is None or b is None or len(a) != len(b):
